@@ -1165,7 +1165,17 @@ func famEnumOff(r *rng.R, id int) *famOut {
 	f.Types = fmt.Sprintf("type %[1]sLv int\n\nconst (\n\t%[1]sLvLow %[1]sLv = 0\n\t%[1]sLvMid %[1]sLv = 1\n\t%[1]sLvHigh %[1]sLv = 2\n)\n\ntype %[1]sTv int\n\nconst (\n\t%[1]sTvLow %[1]sTv = 10\n\t%[1]sTvMid %[1]sTv = 20\n\t%[1]sTvHigh %[1]sTv = 30\n)\n\ntype %[1]sIn struct {\n\tL  %[1]sLv\n\tLs []%[1]sLv\n}\ntype %[1]sOut struct {\n\tL  %[1]sTv\n\tLs []%[1]sTv\n}\n", p)
 	on := fmt.Sprintf("// goverter:converter\n// goverter:enum:unknown @ignore\n// goverter:enum:transform regex %[1]sLv(\\w+) %[1]sTv$1\ntype %[1]sA interface {\n\tConvert(source %[1]sIn) %[1]sOut\n\tOne(source %[1]sLv) %[1]sTv\n}\n\n", p)
 	var off string
-	switch r.Intn(3) {
+	switch r.Intn(5) {
+	case 3, 4:
+		// several enum:exclude lines accumulate: the type excluded by an EARLIER line stays excluded
+		lines := []string{"// goverter:enum:exclude MODULE/p:" + p + "Lv\n", "// goverter:enum:exclude MODULE/p:" + p + "Nothing\n", "// goverter:enum:exclude MODULE/other:.*\n"}
+		if r.Bool() {
+			lines[1], lines[2] = lines[2], lines[1]
+		}
+		if r.Chance(30) {
+			lines[0], lines[1] = lines[1], lines[0]
+		}
+		off = fmt.Sprintf("// goverter:converter\n// goverter:enum:unknown @ignore\n"+strings.Join(lines, "")+"type %[1]sB interface {\n\tConvert(source %[1]sIn) %[1]sOut\n\tOne(source %[1]sLv) %[1]sTv\n}\n\n", p)
 	case 0:
 		off = fmt.Sprintf("// goverter:converter\n// goverter:enum:unknown @ignore\n// goverter:enum:exclude MODULE/p:%[1]sLv\ntype %[1]sB interface {\n\tConvert(source %[1]sIn) %[1]sOut\n\tOne(source %[1]sLv) %[1]sTv\n}\n\n", p)
 	case 1:
